@@ -535,6 +535,26 @@ impl<'t, F: CKind> CSession<'t, F> {
         self.after_call();
         r
     }
+    /// make_node with ONE invalid child (`pos` = 0: lo is invalid, 1: hi is invalid): the call is
+    /// documented to take ownership of hi and lo, so the reference to the valid child is gone, too
+    pub fn make_node_one_invalid(&mut self, var: Slot, child: Slot, pos: usize) {
+        let auto = self.auto_snap;
+        self.auto_snap = false;
+        let extra = self.cref(child);
+        let args = if pos == 0 { [Some(var), Some(extra), None] } else { [Some(var), None, Some(extra)] };
+        self.op(
+            "make_node",
+            &args,
+            json!({}),
+            |api, _, h| unsafe { (api.z().make_node)(h[0], h[1], h[2]) },
+            |_, _| Err(oxidd::util::OutOfMemory),
+        );
+        self.slots[extra] = None;
+        self.rslots[extra] = None;
+        self.out.emit(json!({"ev":"drop","a":extra,"consumed":true}));
+        self.auto_snap = auto;
+        self.after_call();
+    }
     /// an operation executed inside the manager's worker pool
     pub fn bin_in_pool(&mut self, op: &str, a: Slot, b: Slot) -> Option<Slot> {
         struct Job {
